@@ -1,6 +1,7 @@
 package c19
 
 import (
+	"encoding/hex"
 	"fmt"
 	"os"
 	"path/filepath"
@@ -13,6 +14,7 @@ import (
 	"testing"
 	"time"
 
+	"github.com/nspcc-dev/dbft"
 	"github.com/nspcc-dev/neo-go/pkg/config"
 	"github.com/nspcc-dev/neo-go/pkg/config/netmode"
 	"github.com/nspcc-dev/neo-go/pkg/consensus"
@@ -149,10 +151,28 @@ type recorder struct {
 	warns         []string
 	// extpool verdicts
 	xpRejects map[string]int64
+	// every Commit a node broadcast: node -> height -> the distinct (view, signature) pairs
+	sentCommits map[int]map[uint32][]sentCommit
+	// payloads a node's timer makes it send (proposal, change view, recovery
+	// request / message): the logical clock of the post-fault progress verdict
+	timerSent map[int]int64
+	accepted  atomic.Int64 // successful AddBlock calls on any node
+	// chain events the consensus loop handled while its ledger was already
+	// further (several blocks arrived in one burst)
+	ledgerAhead     int64
+	lastAheadHeight map[int]uint32 // node -> the height dBFT was initialised for by such an event
+	commitsAfterBurstInit int64
+}
+
+type sentCommit struct {
+	View byte   `json:"view"`
+	Sig  string `json:"signature"`
+	Seq  int64  `json:"seq"`
 }
 
 func newRecorder() *recorder {
-	return &recorder{txs: map[util.Uint256]*txRec{}, msgTypes: map[string]int64{}, maxView: map[uint32]byte{}, commitViews: map[uint32]map[byte]bool{}, logs: map[string]int64{}, xpRejects: map[string]int64{}}
+	return &recorder{txs: map[util.Uint256]*txRec{}, msgTypes: map[string]int64{}, maxView: map[uint32]byte{}, commitViews: map[uint32]map[byte]bool{}, logs: map[string]int64{}, xpRejects: map[string]int64{},
+		sentCommits: map[int]map[uint32][]sentCommit{}, timerSent: map[int]int64{}, lastAheadHeight: map[int]uint32{}}
 }
 
 func (r *recorder) nextSeq() int64 { r.seq++; return r.seq }
@@ -163,6 +183,20 @@ func (r *recorder) addEvent(e blockEvent) {
 	e.Phase = int(r.phase.Load())
 	r.events = append(r.events, e)
 	r.mu.Unlock()
+	if e.Err == "" {
+		r.accepted.Add(1)
+	}
+}
+
+// timerSentBy returns a copy of the per-node counters of timer-driven payloads.
+func (r *recorder) timerSentBy(n int) []int64 {
+	r.mu.Lock()
+	defer r.mu.Unlock()
+	v := make([]int64, n)
+	for i := range v {
+		v[i] = r.timerSent[i]
+	}
+	return v
 }
 
 func (r *recorder) addCommit(c commitRec) {
@@ -305,16 +339,37 @@ type logCore struct {
 	rec *recorder
 }
 
-func (c *logCore) Enabled(l zapcore.Level) bool      { return l >= zapcore.InfoLevel }
+func (c *logCore) Enabled(l zapcore.Level) bool      { return l >= zapcore.DebugLevel }
 func (c *logCore) With([]zapcore.Field) zapcore.Core { return c }
 func (c *logCore) Sync() error                       { return nil }
+
+// msgChainEvent is the one Debug entry that is kept: the consensus loop
+// re-initialises dBFT after a block of its ledger.
+const msgChainEvent = "new block in the chain"
+
 func (c *logCore) Check(e zapcore.Entry, ce *zapcore.CheckedEntry) *zapcore.CheckedEntry {
-	if c.Enabled(e.Level) {
+	if e.Level >= zapcore.InfoLevel || e.Message == msgChainEvent {
 		return ce.AddCore(e, c)
 	}
 	return ce
 }
 func (c *logCore) Write(e zapcore.Entry, fields []zapcore.Field) error {
+	if e.Level < zapcore.InfoLevel {
+		enc := zapcore.NewMapObjectEncoder()
+		for _, f := range fields {
+			f.AddTo(enc)
+		}
+		di, _ := enc.Fields["dbft index"].(uint32)
+		ci, _ := enc.Fields["chain index"].(uint32)
+		c.rec.mu.Lock()
+		c.rec.logs["debug:"+e.Message]++
+		if ci > di {
+			c.rec.ledgerAhead++
+			c.rec.lastAheadHeight[c.n.idx] = ci + 1
+		}
+		c.rec.mu.Unlock()
+		return nil
+	}
 	c.rec.mu.Lock()
 	defer c.rec.mu.Unlock()
 	c.rec.logs[e.Level.String()+":"+e.Message]++
@@ -530,11 +585,30 @@ func (cl *cluster) observePayload(from int, raw []byte) (string, int) {
 	if p.ViewNumber() > rec.maxView[p.Height()] {
 		rec.maxView[p.Height()] = p.ViewNumber()
 	}
-	if p.Type().String() == "Commit" {
+	switch p.Type().String() {
+	case "Commit":
 		if rec.commitViews[p.Height()] == nil {
 			rec.commitViews[p.Height()] = map[byte]bool{}
 		}
 		rec.commitViews[p.Height()][p.ViewNumber()] = true
+		if rec.sentCommits[from] == nil {
+			rec.sentCommits[from] = map[uint32][]sentCommit{}
+		}
+		sc := sentCommit{View: p.ViewNumber(), Sig: hex.EncodeToString(p.GetCommit().Signature()), Seq: rec.nextSeq()}
+		if !slices.ContainsFunc(rec.sentCommits[from][p.Height()], func(x sentCommit) bool { return x.View == sc.View && x.Sig == sc.Sig }) {
+			rec.sentCommits[from][p.Height()] = append(rec.sentCommits[from][p.Height()], sc)
+		}
+		if rec.lastAheadHeight[from] == p.Height() {
+			rec.commitsAfterBurstInit++
+		}
+	case "RecoveryMessage":
+		rec.timerSent[from]++
+		rec.msgTypes["RecoveryMessage:"+cl.recoveryShape(from, p)]++
+		if p.ViewNumber() > 0 {
+			rec.msgTypes["RecoveryMessage:view>=1"]++
+		}
+	case "PrepareRequest", "ChangeView", "RecoveryRequest":
+		rec.timerSent[from]++
 	}
 	if p.Type().String() == "PrepareRequest" && len(rec.preps) >= maxPreps {
 		// a proposal storm: from this height on the inclusion oracle cannot
@@ -546,6 +620,37 @@ func (cl *cluster) observePayload(from int, raw []byte) (string, int) {
 		rec.preps = append(rec.preps, prepRec{Node: from, Validator: int(p.ValidatorIndex()), Height: p.Height(), View: p.ViewNumber(), Txs: slices.Clone(p.GetPrepareRequest().TransactionHashes())})
 	}
 	return p.Type().String(), int(p.ViewNumber())
+}
+
+// recoveryShape tells what a recovery message carries about the proposal:
+// the full PrepareRequest, only its hash, or nothing.
+func (cl *cluster) recoveryShape(from int, p *consensus.Payload) (shape string) {
+	defer func() {
+		if recover() != nil {
+			shape = "unclassified"
+		}
+	}()
+	rm := p.GetRecoveryMessage()
+	if rm.PreparationHash() != nil {
+		return "preparation-hash-only"
+	}
+	bc := cl.nodes[from].bc
+	vals, err := bc.GetNextBlockValidators()
+	if err != nil || bc.BlockHeight()+1 != p.Height() {
+		return "unclassified"
+	}
+	pubs := make([]dbft.PublicKey, len(vals))
+	for i := range vals {
+		pubs[i] = vals[i]
+	}
+	primary := (int(p.Height()) - int(p.ViewNumber())) % len(pubs)
+	if primary < 0 {
+		primary += len(pubs)
+	}
+	if rm.GetPrepareRequest(p, pubs, uint16(primary)) != nil {
+		return "full-prepare-request"
+	}
+	return "no-preparation"
 }
 
 func (nd *node) onExtensibleRaw(raw []byte) {
